@@ -119,7 +119,8 @@ CHECKS = {
         "plus the repo's own live-version sample documents are schema-validated, loaded and re-saved and compared under a canonicaliser. Every "
         "type / parameter / argument / value case additionally travels through Hugr.to_json -> load_json inside a module-level op, and decoded "
         "values are compared attribute by attribute with an opaque-mode rebuild; every operation's document and every value's payload is compared "
-        "with an expectation computed from the descriptor alone (symmetric encode/decode faults); loaded foreign documents are also compared in memory (links()).",
+        "with an expectation computed from the descriptor alone (symmetric encode/decode faults); loaded foreign documents are also compared in memory (links()); "
+        "sugar helpers get one-shot iterables and are compared with general forms built from independently constructed fields.",
         "Trusted: vf/gen/types.py wire forms, the canonicaliser in c05_foreign.py, the published schema. CF edges are always written with explicit "
         "offsets (a null CF offset is ambiguous in the reference reader).",
         "DESIGN.md §3 C05",
@@ -130,7 +131,7 @@ CHECKS = {
         "document and generated extension document is validated against the published strict JSON schema (sampled 1/4 for HUGRs in quick), "
         "checked for root/parent/edge index sanity, and its edge multiset is compared with the one computed independently from links() and "
         "the emitted ops' signatures (value port k at k, static input after the value inputs incl. arity-changing row-polymorphic calls, order edge on the next port). "
-        "Histories include inserts with the default parent; the repository-test corpus is a further stratum.",
+        "Histories include inserts with the default parent; the repository-test corpus is a further stratum; a quarter of the calls get their last arguments linked after the call was made.",
         "Trusted: the published schema file, vf/oracles/wire.py port tables. One index-reuse mechanism is an open known finding. "
         "Not covered: what serde would reject although schema-valid (e.g. u8 overflow of UnitSum.size).",
         "DESIGN.md §3 C03",
@@ -173,7 +174,8 @@ CHECKS = {
         "signatures with arity-changing instantiations) the outer/inner signature rows, every port kind and type (value, static and order "
         "ports), num_out, nth_inputs/nth_outputs and Hugr.port_type are compared with a table computed from the descriptors alone. Two cross-cutting strata: "
         "every port of every node of generated builder programs (kind from the op vs type of the linked peer; Hugr.port_type on every out port), DFG / container delta and outer == inner rows, and one partial-op instance "
-        "(MakeTuple / UnpackTuple / Noop / CallIndirect) re-used through the builders with several rows (facts must follow the current typing).",
+        "(MakeTuple / UnpackTuple / Noop / CallIndirect) re-used through the builders with several rows (facts must follow the current typing; "
+        "CallIndirect also added with only a prefix of its arguments).",
         "Trusted: the spec table in vf/props/c06.py and vf/gen/types.py wire forms. runtime_reqs not compared; out-of-range offsets not queried.",
         "DESIGN.md §3 C06",
     ),
